@@ -1248,6 +1248,11 @@ func (c *Catalogue) buildShared(in *Inst, env *Env, r *Rng) {
 			if m.GsmMessage != nil {
 				out = append(out, m.GsmHeader.GetMessageType(), m.GsmHeader.GetExtendedProtocolDiscriminator())
 			}
+			// read-style methods declared on the message containers themselves
+			// (follows the tree: a String(), Len(), IsXxx() added by a change is called too)
+			for _, holder := range messageHolders(m) {
+				readerSweep(holder, &out)
+			}
 			return out
 		}
 	case "shenc":
@@ -1486,5 +1491,71 @@ func perturbArgs(args []reflect.Value, r *Rng) {
 			b[i] ^= 1
 		}
 		l.v.SetString(string(b))
+	}
+}
+
+// messageHolders: the message, its 5GMM / 5GSM part and the one populated body.
+func messageHolders(m *nas.Message) []reflect.Value {
+	out := []reflect.Value{reflect.ValueOf(m)}
+	var part reflect.Value
+	switch {
+	case m.GmmMessage != nil:
+		part = reflect.ValueOf(m.GmmMessage)
+	case m.GsmMessage != nil:
+		part = reflect.ValueOf(m.GsmMessage)
+	default:
+		return out
+	}
+	out = append(out, part)
+	pe := part.Elem()
+	for i := 0; i < pe.NumField(); i++ {
+		f := pe.Field(i)
+		if f.Kind() == reflect.Ptr && !f.IsNil() && f.Elem().Kind() == reflect.Struct {
+			out = append(out, f)
+		}
+	}
+	return out
+}
+
+var readerPrefixes = []string{"Get", "Is", "Has", "String", "Len", "Size", "Type", "Kind", "Name"}
+
+// readerSweep calls the zero-argument read-style methods DECLARED on p's type
+// (not the ones promoted from embedded IEs: those are reached through the IEs).
+func readerSweep(p reflect.Value, out *[]interface{}) {
+	t := p.Type()
+	et := t.Elem()
+	pkg := et.PkgPath()
+	rel := pkg[strings.LastIndex(pkg, "/")+1:]
+	for m := 0; m < t.NumMethod(); m++ {
+		mm := t.Method(m)
+		if mm.Type.NumIn() != 1 || mm.Type.NumOut() == 0 {
+			continue
+		}
+		ok := false
+		for _, pre := range readerPrefixes {
+			if strings.HasPrefix(mm.Name, pre) {
+				ok = true
+				break
+			}
+		}
+		if !ok {
+			continue
+		}
+		if _, declared := RegMethodParams[rel+"."+et.Name()+"."+mm.Name]; !declared {
+			continue
+		}
+		func() {
+			defer func() {
+				if pv := recover(); pv != nil {
+					if vsimrt.IsAbort(pv) || vsimrt.IsRunaway(pv) {
+						panic(pv)
+					}
+					*out = append(*out, fmt.Sprint("panic:", pv))
+				}
+			}()
+			for _, rv := range p.Method(m).Call(nil) {
+				*out = append(*out, rv.Interface())
+			}
+		}()
 	}
 }
